@@ -218,6 +218,20 @@ class Flow:
         self._memo[l] = r
         return r
 
+    def sources(self, e, site=None, _seen=None):
+        """[(block, stmt idx, expr)]: the assignments a value may come from.  A join-point local is expanded into the
+        rvalues of its plain assignments (recursively); anything else is its own single source at `site`."""
+        _seen = _seen if _seen is not None else set()
+        if e[0] == 'local' and e[1] not in _seen:
+            ds = self.defs.get(e[1], [])
+            if ds and all(d[0] == 'assign' for d in ds) and e[1] not in self.partial:
+                _seen.add(e[1])
+                out = []
+                for d in ds:
+                    out += self.sources(self.rvalue(d[3], 0), (d[1], d[2]), _seen)
+                return out
+        return [(site[0] if site else None, site[1] if site else None, e)]
+
     def call(self, t, b, depth):
         cal = t.get('res') or t.get('fn')
         if cal is None:
